@@ -96,7 +96,7 @@ func (g *gen) text() string {
 	case 2:
 		return "<p class=\"c\">t</p>"
 	case 3:
-		return "line1\n  line2\t"
+		return pick(g.r, []string{"line1\n  line2\t", "line1\n  line2\t", "dos\r\nline\r\n", "mac\rline", "nul\x00byte \x7f"})
 	case 4:
 		return "% } { # $ \\ '\""
 	default:
